@@ -238,6 +238,30 @@ fn finding_class(c: &Case, codes: &[String]) -> Option<&'static str> {
     if has("E0124") && all_sets(&|set| keys_of_set(set).iter().any(|k| k == "on") && set.iter().any(|s| matches!(s, ASel::Inline { .. } | ASel::Spread { .. }))) {
         return Some("field-named-on-next-to-variant-selection");
     }
+    if has("E0428") {
+        // the generated enum declares one identifier twice: two schema values with the same identifier after
+        // normalization (`self` / `Self`, `red` / `RED` under rust), or a value whose identifier is `Other`,
+        // the name of the catch-all variant
+        use heck::ToUpperCamelCase;
+        let ident = |v: &str| if c.opts.normalization_rust { v.to_upper_camel_case() } else { v.to_string() };
+        for t in &c.schema.types {
+            if let AType::Enum { name, values } = t {
+                if c.opts.extern_enums.contains(name) {
+                    continue;
+                }
+                let mut ids: Vec<String> = values.iter().map(|v| ident(v)).collect();
+                if ids.iter().any(|i| i == "Other") {
+                    return Some("enum-value-named-like-the-catch-all-variant");
+                }
+                let n = ids.len();
+                ids.sort();
+                ids.dedup();
+                if ids.len() != n {
+                    return Some("enum-values-equal-after-normalization");
+                }
+            }
+        }
+    }
     if has("E0428") && !c.opts.normalization_rust && c.doc.ops.iter().any(|o| { use heck::ToSnakeCase; o.name.to_snake_case() == o.name }) {
         // `struct list_items;` next to `mod list_items`: both live in the type namespace
         return Some("operation-name-equals-its-module-name");
@@ -283,7 +307,7 @@ fn corpus() -> Vec<(ASchema, ADoc, Opts, &'static str)> {
         types: vec![
             AType::Enum { name: "Unit".into(), values: vec!["METER".into(), "foot".into(), "type".into()] },
             AType::Scalar { name: "Date".into() },
-            AType::Input { name: "Filter".into(), one_of: false, fields: vec![("unit".into(), ATy::named("Unit")), ("since".into(), ATy::named("Date")), ("nested".into(), ATy::named("Filter"))] },
+            AType::Input { name: "Filter".into(), one_of: false, fields: vec![("unit".into(), ATy::named("Unit")), ("since".into(), ATy::named("Date")), ("nested".into(), ATy::named("Filter")), ("anyOf".into(), ATy::List(Box::new(ATy::NonNull(Box::new(ATy::named("Filter"))))))] },
             obj("Query", vec![], vec![f("unit", ATy::named("Unit")), f("units", ATy::List(Box::new(ATy::NonNull(Box::new(ATy::named("Unit")))))), f("when", ATy::named("Date"))]),
         ],
         query: Some("Query".into()),
@@ -300,6 +324,16 @@ fn corpus() -> Vec<(ASchema, ADoc, Opts, &'static str)> {
         ops: vec![AOp { kind: "query", name: "Defaults".into(), vars: vars.into_iter().map(|(n, t, d)| AVar { name: n.into(), ty: t, default: Some(d.into()) }).collect(), sels: vec![fld("unit", vec![])] }],
         frags: vec![],
     };
+    let collide_schema = |values: Vec<&str>| ASchema {
+        types: vec![
+            AType::Enum { name: "Colour".into(), values: values.into_iter().map(String::from).collect() },
+            obj("Query", vec![], vec![f("colour", ATy::named("Colour"))]),
+        ],
+        query: Some("Query".into()),
+        mutation: None,
+        subscription: None,
+    };
+    let enum_doc_c = ADoc { ops: vec![AOp { kind: "query", name: "Colours".into(), vars: vec![], sels: vec![fld("colour", vec![])] }], frags: vec![] };
     let both = |r: &str, v: &str, rust: bool| Opts { response_derives: Some(r.into()), variables_derives: Some(v.into()), normalization_rust: rust, ..Opts::default() };
     // every fragment-recursion pattern of C12 must compile too (Box on every by-value cycle)
     let mut fixed: Vec<(ASchema, ADoc, Opts, &'static str)> = super::c12::fragment_cases().into_iter().map(|g| (g.schema, g.doc, Opts::default(), "")).collect();
@@ -311,6 +345,7 @@ fn corpus() -> Vec<(ASchema, ADoc, Opts, &'static str)> {
         (enum_schema.clone(), dflt_doc(vec![("f", ATy::named("Float"), "1")]), Opts::default(), ""),
         (enum_schema.clone(), dflt_doc(vec![("o", ATy::named("Filter"), "{ since: \"2020\" }")]), Opts::default(), ""),
         (enum_schema.clone(), dflt_doc(vec![("o", ATy::named("Filter"), "{ nested: { since: \"x\" } }")]), Opts::default(), ""),
+        (enum_schema.clone(), dflt_doc(vec![("o", ATy::named("Filter"), "{ anyOf: [{ since: \"x\" }, { nested: { anyOf: [] } }], unit: METER }")]), Opts::default(), ""),
         (enum_schema.clone(), enum_doc.clone(), both("Debug, Clone", "Debug, Clone", false), ""),
         (enum_schema.clone(), enum_doc.clone(), both("Debug,PartialEq,Clone", "Clone,Debug", true), ""),
         (enum_schema.clone(), enum_doc.clone(), both("Serialize,Debug", "Deserialize,Debug", false), ""),
@@ -319,6 +354,11 @@ fn corpus() -> Vec<(ASchema, ADoc, Opts, &'static str)> {
         (schema.clone(), doc(vec![], vec![fld("a", vec![fld("friend", vec![fld("name", vec![])])]), fld("aB", vec![fld("name", vec![])]), ASel::Field { alias: Some("aFriend".into()), name: "dog".into(), sub: vec![fld("name", vec![])] }], vec![]), Opts::default(), "selection-paths-concatenate-to-one-type-name"),
         (schema.clone(), doc(vec![], vec![fld("animal", vec![ASel::Typename, fld("on", vec![]), ASel::Inline { on: "Dog".into(), sub: vec![fld("name", vec![])] }])], vec![]), Opts::default(), "field-named-on-next-to-variant-selection"),
         (schema.clone(), ADoc { ops: vec![AOp { kind: "query", name: "list_items".into(), vars: vec![], sels: vec![fld("echo", vec![])] }], frags: vec![] }, Opts::default(), "operation-name-equals-its-module-name"),
+        (collide_schema(vec!["self", "Self", "blue"]), enum_doc_c.clone(), both("Debug", "Debug", true), "enum-values-equal-after-normalization"),
+        (collide_schema(vec!["self", "Self", "blue"]), enum_doc_c.clone(), both("Debug", "Debug", false), ""),
+        (collide_schema(vec!["Other", "blue"]), enum_doc_c.clone(), both("Debug", "Debug", false), "enum-value-named-like-the-catch-all-variant"),
+        (collide_schema(vec!["OTHER", "blue"]), enum_doc_c.clone(), both("Debug", "Debug", true), "enum-value-named-like-the-catch-all-variant"),
+        (collide_schema(vec!["OTHER", "other", "blue"]), enum_doc_c.clone(), both("Debug", "Debug", false), ""),
     ]);
     fixed
 }
@@ -366,7 +406,7 @@ pub fn run(a: &Args) -> i32 {
         opts.extern_enums.retain(|e| !doc.ops.iter().any(|o| o.vars.iter().any(|v| v.default.is_some() && v.ty.base() == e)));
         let use_sc_module = !is_corpus && rng.chance(40);
         // some schema printers re-declare the built-in scalars (`scalar ID` …): still a supported input
-        let sdl = schema.to_sdl(&RenderKnobs { sdl_builtin_scalars: rng.chance(30), ..RenderKnobs::default() });
+        let sdl = schema.to_sdl(&RenderKnobs { sdl_builtin_scalars: rng.chance(30), use_extend: rng.chance(40), extend_implements: rng.chance(50), extensions_first: rng.chance(50), ..RenderKnobs::default() });
         let qtext = doc.render();
         let all_forms = !is_corpus && idx % forms_every == 0;
         let mut c = Case { idx, schema, doc, sdl, qtext, opts, forms: vec![0], sc_module: use_sc_module, recursive_fragment: false, corpus_class };
